@@ -13,6 +13,7 @@ import Gkv.Model.Versions
 import Gkv.Proofs.VersionsFine
 import Gkv.Proofs.VersionsLeak
 import Gkv.Props.Locks
+import Gkv.Gen.Sites
 open Std
 
 namespace Gkv.Props.C10
@@ -79,5 +80,137 @@ theorem every_reader_holds_its_version :
        "Collection.SetItem", "Collection.VisitItemsAscendEx", "Collection.VisitItemsDescendEx",
        "Collection.Write", "Store.walk"] :=
   ⟨Gkv.Props.Locks.readers_pin_and_unpin, by rw [Gkv.Props.Locks.every_pin_site_is_reviewed]; decide⟩
+
+/-! ### the events of Model H are all the places where the code marks, frees and counts (regenerated)
+
+Model H has the events acquire / release / load / mutate / dec.  `Gen/Sites.lean`, rewritten from
+/repo on every run, lists every call of the functions that implement them and every direct
+assignment to the fields the protocol lives in.  Reviewed reading:
+
+* `rootAddRef` (acquire) and `rootDecRef` (release): the paired readers of
+  `every_reader_holds_its_version`, the three hand-overs (`Flush`, `SetCollection`, `Snapshot`),
+  and `closeCollection` (handle close) — called from `Close`, `FlushRevert`, `RemoveCollection`,
+  `SetCollection` only;
+* `mutate`: `SetItem` / `Delete` — `markReclaimable` only inside `union` / `split` / `join` on the
+  node just replaced (set `R`) and once in `Delete` on the removed node with the NEW version's mark
+  (`Rn`), `reclaimMarkUpdate` only in `SetItem` / `Delete` after a successful rebuild (`Rn`, `T`),
+  `reclaimMarkClear` on every error return (the abort of `VersionsFine`), `rootCAS`, then the
+  mutating handle's `rootDecRef`;
+* `dec`: `rootDecRefUnlocked` alone marks a whole tree (`markAllUnlocked`), reclaims
+  (`reclaimNodesUnlocked` → `freeNodeUnlocked`) and frees a version (`freeRootNodeLoc`);
+* `refs` is written only by `rootAddRef` (++), `rootCAS` (++ for the chain), `rootDecRefUnlocked`
+  (--) and the two allocator functions; `node.next` only by the five marking functions and the
+  allocator.
+
+Seeded changes C10 (mark at handle close), C10e (Delete frees at once), C04h (chain skipped for an
+empty successor — a condition, not a site: not seen here, seen by `heapcheck`) … -/
+theorem every_mark_and_free_site_is_an_event :
+    Gen.Sites.reclaimSites = [
+  ("Collection.Delete", "rootAddRef", ""),
+  ("Collection.Delete", "rootDecRef", "rnl"),
+  ("Collection.Delete", "reclaimMarkClear", "root, &rnl.reclaimMark"),
+  ("Collection.Delete", "reclaimMarkClear", "root, &rnl.reclaimMark"),
+  ("Collection.Delete", "reclaimMarkClear", "root, &rnl.reclaimMark"),
+  ("Collection.Delete", "mkRootNodeLoc", "r"),
+  ("Collection.Delete", "reclaimMarkUpdate", "left, &rnl.reclaimMark, &rnlNew.reclaimMark"),
+  ("Collection.Delete", "reclaimMarkUpdate", "right, &rnl.reclaimMark, &rnlNew.reclaimMark"),
+  ("Collection.Delete", "reclaimMarkUpdate", "middle, &rnl.reclaimMark, &rnlNew.reclaimMark"),
+  ("Collection.Delete", "markReclaimable", "rnlNew.reclaimLater[2], &rnlNew.reclaimMark"),
+  ("Collection.Delete", "rootCAS", "rnl, rnlNew"),
+  ("Collection.Delete", "rootDecRef", "rnl"),
+  ("Collection.GetItem", "rootAddRef", ""),
+  ("Collection.GetItem", "rootDecRef", "rnl"),
+  ("Collection.GetTotals", "rootAddRef", ""),
+  ("Collection.GetTotals", "rootDecRef", "rnl"),
+  ("Collection.MarshalJSON", "rootAddRef", ""),
+  ("Collection.MarshalJSON", "rootDecRef", "rnl"),
+  ("Collection.SetItem", "rootAddRef", ""),
+  ("Collection.SetItem", "rootDecRef", "rnl"),
+  ("Collection.SetItem", "reclaimMarkClear", "root, &rnl.reclaimMark"),
+  ("Collection.SetItem", "mkRootNodeLoc", "r"),
+  ("Collection.SetItem", "reclaimMarkUpdate", "nloc, &rnl.reclaimMark, &rnlNew.reclaimMark"),
+  ("Collection.SetItem", "rootCAS", "rnl, rnlNew"),
+  ("Collection.SetItem", "rootDecRef", "rnl"),
+  ("Collection.UnmarshalJSON", "rootCAS", "nil, t.mkRootNodeLoc(nloc)"),
+  ("Collection.UnmarshalJSON", "mkRootNodeLoc", "nloc"),
+  ("Collection.VisitItemsAscendEx", "rootAddRef", ""),
+  ("Collection.VisitItemsAscendEx", "rootDecRef", "rnl"),
+  ("Collection.VisitItemsDescendEx", "rootAddRef", ""),
+  ("Collection.VisitItemsDescendEx", "rootDecRef", "rnl"),
+  ("Collection.Write", "rootAddRef", ""),
+  ("Collection.Write", "rootDecRef", "rnl"),
+  ("Collection.closeCollection", "rootDecRef", "r"),
+  ("Collection.markAllUnlocked", "markAllUnlocked", "&n.left, reclaimMark"),
+  ("Collection.markAllUnlocked", "markAllUnlocked", "&n.right, reclaimMark"),
+  ("Collection.reclaimMarkClear", "reclaimMarkClear", "&n.left, reclaimMark"),
+  ("Collection.reclaimMarkClear", "reclaimMarkClear", "&n.right, reclaimMark"),
+  ("Collection.reclaimMarkUpdate", "reclaimMarkUpdate", "&n.left, oldReclaimMark, newReclaimMark"),
+  ("Collection.reclaimMarkUpdate", "reclaimMarkUpdate", "&n.right, oldReclaimMark, newReclaimMark"),
+  ("Collection.reclaimNodesUnlocked", "freeNodeUnlocked", "n, reclaimMark"),
+  ("Collection.reclaimNodesUnlocked", "reclaimNodesUnlocked", "left, reclaimLater, reclaimMark"),
+  ("Collection.reclaimNodesUnlocked", "reclaimNodesUnlocked", "right, reclaimLater, reclaimMark"),
+  ("Collection.rootDecRef", "rootDecRefUnlocked", "r"),
+  ("Collection.rootDecRefUnlocked", "rootDecRefUnlocked", "r.chainedRootNodeLoc"),
+  ("Collection.rootDecRefUnlocked", "markAllUnlocked", "r.root, &r.reclaimMark"),
+  ("Collection.rootDecRefUnlocked", "reclaimNodesUnlocked", "r.root.Node(), &r.reclaimLater, &r.reclaimMark"),
+  ("Collection.rootDecRefUnlocked", "reclaimNodesUnlocked", "r.reclaimLater[i], nil, &r.reclaimMark"),
+  ("Collection.rootDecRefUnlocked", "freeRootNodeLoc", "r"),
+  ("Store.Close", "closeCollection", ""),
+  ("Store.Flush", "rootAddRefIfOpen", ""),
+  ("Store.Flush", "rootDecRef", "r"),
+  ("Store.Flush", "rootDecRef", "rnls[name]"),
+  ("Store.FlushRevert", "closeCollection", ""),
+  ("Store.RemoveCollection", "closeCollection", ""),
+  ("Store.SetCollection", "rootAddRef", ""),
+  ("Store.SetCollection", "closeCollection", ""),
+  ("Store.SetCollection", "closeCollection", ""),
+  ("Store.Snapshot", "rootAddRefIfOpen", ""),
+  ("Store.Snapshot", "closeCollection", ""),
+  ("Store.join", "markReclaimable", "thisNode, reclaimMark"),
+  ("Store.join", "markReclaimable", "thatNode, reclaimMark"),
+  ("Store.split", "markReclaimable", "nNode, reclaimMark"),
+  ("Store.split", "markReclaimable", "nNode, reclaimMark"),
+  ("Store.union", "markReclaimable", "thisNode, reclaimMark"),
+  ("Store.union", "markReclaimable", "middleNode, reclaimMark"),
+  ("Store.union", "markReclaimable", "thatNode, reclaimMark"),
+  ("Store.union", "markReclaimable", "middleNode, reclaimMark"),
+  ("Store.walk", "rootAddRef", ""),
+  ("Store.walk", "rootDecRef", "rnl")
+    ] := by decide +kernel
+
+theorem protocol_fields_written_only_by_the_protocol :
+    Gen.Sites.protoAssigns = [
+  ("Collection.Delete", "rnlNew.reclaimLater[0] =", "t.reclaimMarkUpdate(left, &rnl.reclaimMark, &rnlNew.reclaimMark)"),
+  ("Collection.Delete", "rnlNew.reclaimLater[1] =", "t.reclaimMarkUpdate(right, &rnl.reclaimMark, &rnlNew.reclaimMark)"),
+  ("Collection.Delete", "rnlNew.reclaimLater[2] =", "t.reclaimMarkUpdate(middle, &rnl.reclaimMark, &rnlNew.reclaimMark)"),
+  ("Collection.SetItem", "rnlNew.reclaimLater[0] =", "t.reclaimMarkUpdate(nloc, &rnl.reclaimMark, &rnlNew.reclaimMark)"),
+  ("Collection.freeNodeLoc", "nloc.next =", "freeNodeLocs"),
+  ("Collection.freeNodeUnlocked", "n.next =", "freeNodes"),
+  ("Collection.freeRootNodeLoc", "rnl.refs =", "0"),
+  ("Collection.freeRootNodeLoc", "rnl.chainedCollection =", "nil"),
+  ("Collection.freeRootNodeLoc", "rnl.chainedRootNodeLoc =", "nil"),
+  ("Collection.freeRootNodeLoc", "rnl.next =", "freeRootNodeLocs"),
+  ("Collection.markAllUnlocked", "n.next =", "reclaimMark"),
+  ("Collection.markReclaimable", "n.next =", "reclaimMark"),
+  ("Collection.mkNode", "n.next =", "nil"),
+  ("Collection.mkNodeLoc", "nloc.next =", "nil"),
+  ("Collection.mkRootNodeLoc", "rnl.refs =", "1"),
+  ("Collection.mkRootNodeLoc", "rnl.next =", "nil"),
+  ("Collection.mkRootNodeLoc", "rnl.chainedCollection =", "nil"),
+  ("Collection.mkRootNodeLoc", "rnl.chainedRootNodeLoc =", "nil"),
+  ("Collection.mkRootNodeLoc", "rnl.superseded =", "false"),
+  ("Collection.mkRootNodeLoc", "rnl.reclaimLater[i] =", "nil"),
+  ("Collection.reclaimMarkClear", "n.next =", "nil"),
+  ("Collection.reclaimMarkUpdate", "n.next =", "newReclaimMark"),
+  ("Collection.rootAddRef", "t.root.refs ++", ""),
+  ("Collection.rootAddRefIfOpen", "t.root.refs ++", ""),
+  ("Collection.rootCAS", "prev.superseded =", "true"),
+  ("Collection.rootCAS", "prev.chainedCollection =", "t"),
+  ("Collection.rootCAS", "prev.chainedRootNodeLoc =", "t.root"),
+  ("Collection.rootCAS", "t.root.refs ++", ""),
+  ("Collection.rootDecRefUnlocked", "r.refs --", ""),
+  ("Collection.rootDecRefUnlocked", "r.reclaimLater[i] =", "nil"),
+  ("newIterator", "it.next =", "make(*ast.ChanType)")
+    ] := by decide +kernel
 
 end Gkv.Props.C10
